@@ -626,9 +626,7 @@ func (en *env) index(x *ast.IndexExpr) TV {
 	base := en.eval(x.X, nil)
 	// ghost / raw SMT arrays
 	if rs, ok := base.T.(*RawSort); ok && rs.S.Kind == smt.KArray {
-		it := en.eval(x.Index, sortType(rs.S.Idx))
-		it = en.coerceTo(it, sortType(rs.S.Idx))
-		return TV{V: Scalar{c.Select(en.scalar(base), en.scalar(it))}, T: sortType(rs.S.Elem)}
+		return TV{V: Scalar{c.Select(en.scalar(base), en.rawIndex(x.Index, rs.S.Idx))}, T: sortType(rs.S.Elem)}
 	}
 	idx := en.coerceTo(en.eval(x.Index, types.Typ[types.Int]), types.Typ[types.Int])
 	it := r.toIdx(en.scalar(idx), idx.T)
@@ -650,6 +648,17 @@ func (en *env) index(x *ast.IndexExpr) TV {
 	}
 	en.errf("indexing %T", base.V)
 	return TV{}
+}
+
+// rawIndex evaluates the index of a ghost / raw SMT array; a pointer indexes a reference-keyed map by
+// its reference.
+func (en *env) rawIndex(e ast.Expr, s *smt.Sort) *smt.Term {
+	it := en.eval(e, sortType(s))
+	if p, ok := it.V.(PtrV); ok && s == smt.Int && len(p.L.Idxs) == 1 {
+		return p.L.Idxs[0]
+	}
+	it = en.coerceTo(it, sortType(s))
+	return en.scalar(it)
 }
 
 func (en *env) call(x *ast.CallExpr, want types.Type) TV {
@@ -765,6 +774,15 @@ func (en *env) call(x *ast.CallExpr, want types.Type) TV {
 				h = c.Select(h, i)
 			}
 			return TV{V: Scalar{h}, T: &RawSort{S: h.Sort}}
+		case "store":
+			// store(a, i, v): the raw SMT array a updated at i
+			a := en.eval(x.Args[0], nil)
+			rs, ok := a.T.(*RawSort)
+			if !ok || rs.S.Kind != smt.KArray || len(x.Args) != 3 {
+				en.errf("store(a, i, v) wants a raw array")
+			}
+			v := en.coerceTo(en.eval(x.Args[2], sortType(rs.S.Elem)), sortType(rs.S.Elem))
+			return TV{V: Scalar{c.Store(en.scalar(a), en.rawIndex(x.Args[1], rs.S.Idx), en.scalar(v))}, T: a.T}
 		case "iff__":
 			return TV{V: Scalar{c.Eq(en.evalBool(x.Args[0]), en.evalBool(x.Args[1]))}, T: types.Typ[types.Bool]}
 		case "forall__", "exists__":
@@ -992,9 +1010,9 @@ func (en *env) quantifier(forall bool, x *ast.CallExpr) TV {
 	typ := ""
 	for i := len(parts) - 1; i >= 0; i-- {
 		p := strings.TrimSpace(parts[i])
-		fs := strings.Fields(p)
+		fs := strings.SplitN(p, " ", 2)
 		if len(fs) == 2 {
-			typ = fs[1]
+			typ = strings.TrimSpace(fs[1])
 		}
 		if typ == "" {
 			en.errf("quantifier binder %q needs a type", txt)
